@@ -117,7 +117,7 @@ def pyIsStr : PV → PV
   | _ => vFalse
 /-- `s.lower()` (ASCII lowering, as in the C19 model; the tables only contain ASCII letters) -/
 def pyLower : PV → PV
-  | .a (.str s) => vStr (s.map fun c => if 'A' ≤ c ∧ c ≤ 'Z' then Char.ofNat (c.toNat + 32) else c)
+  | .a (.str s) => vStr (String.ofList (s.toList.map fun c => if 'A' ≤ c ∧ c ≤ 'Z' then Char.ofNat (c.toNat + 32) else c))
   | v => v
 /-- `s.lstrip("_")`-style: strip leading characters that occur in `chars` -/
 def pyLstrip (s chars : PV) : PV :=
